@@ -15,7 +15,7 @@ def run(c):
         c.rng.shuffle(cfgs)
         pick, cnt = [], {}
         for g in cfgs:
-            ks = [("size", g["size"]), ("ct", g["ct"]), ("shape", g["ct"] + g["shape"]), ("key", g["key"]), ("issuer", g["issuer"]), ("serial", g["serial"])]
+            ks = [("size", g["size"]), ("ct", g["ct"]), ("shape", g["ct"] + g["shape"]), ("key", g["key"]), ("issuer", g["issuer"]), ("serial", g["serial"]), ("sched", g["ct"] + g["sched"])]
             if any(cnt.get(k, 0) < 5 for k in ks) or len(pick) < 60:
                 pick.append(g)
                 for k in ks:
@@ -23,7 +23,7 @@ def run(c):
             if len(pick) >= 110:
                 break
         cfgs = pick
-    scen = [dict(g, sc=i, after_error=(i % 2 == 1)) for i, g in enumerate(cfgs)]     # every second one after a signing attempt that failed in the signer
+    scen = [dict(g, sc=i, after_error=(g["sched"] == "after_error"), overlapped=(g["sched"] == "overlapped")) for i, g in enumerate(cfgs)]
     env = dict(os.environ, VERIF_FIXTURES=os.path.join(vf.VERIF, "fixtures"))
     res, deaths = c.run_worker("p7sign", scen, env=env, timeout=1800)
     events, owner = [], []
@@ -64,10 +64,10 @@ def run(c):
     c.cov["traces_validated_against_impl"] = len(scen)
     c.cov["openssl_cases"] = sum(1 for e in events if e.get("openssl", {}).get("ran"))
     c.cov["rule"] = ("producer configurations enumerated by TLC (7 content sizes 0..64 KiB x {data, SpcIndirectDataContent via SignAuthenticode, short OID, OID with >= 32 content octets} x RSA "
-                     "2048/3072/4096 x issuer {1 RDN, multi-RDN, ~200 bytes} x serial {1 byte, 0x7f, 0x80, leading-zero, 20 bytes high bit}) - %s; the output of SignPKCS7 / SignAuthenticode is "
+                     "2048/3072/4096 x issuer {1 RDN, multi-RDN, ~200 bytes} x serial {1 byte, 0x7f, 0x80, leading-zero, 20 bytes high bit} x {alone, after a signing that failed in the signer, overlapped with another complete signing while waiting in the signer}) - %s; the output of SignPKCS7 / SignAuthenticode is "
                      "projected by the independent reader to a symbolic blob and validated by spec/Pkcs7SignTrace.tla (= Pkcs7Sym's honest producer; openssl smime/cms -verify and "
                      "go.mozilla.org/pkcs7 accept the right and reject altered content; own parser recovers the fields, own Verify accepts). All configurations distinct.") % (
-                         "seeded sample covering every value of every dimension" if c.quick else "full product (1260)")
+                         "seeded sample covering every value of every dimension" if c.quick else "full product (3780)")
     for s in scen[:2]:
         c.sample(s)
     can = [dict(e) for e in events[:2]]
